@@ -315,6 +315,32 @@ pub fn replay_c03(v: &Value) -> Vec<Failure> {
             }
             v2
         }
+        Some("first_use") => {
+            // a race: the eight frames are decoded concurrently as the first act of 400 fresh processes
+            use std::io::Write;
+            let frames: Vec<Vec<u8>> = v.get("frames").and_then(|x| x.as_array()).map(|a| a.iter().filter_map(|h| h.as_str().and_then(bits::unhex)).collect()).unwrap_or_default();
+            let mut out = vec![];
+            'rounds: for _ in 0..400 {
+                let Ok(exe) = std::env::current_exe() else { break };
+                let Ok(mut child) = std::process::Command::new(exe).arg("helper").stdin(std::process::Stdio::piped()).stdout(std::process::Stdio::piped()).stderr(std::process::Stdio::null()).spawn() else { break };
+                let req = json!({"cmd": "firstcrc", "frames": frames.iter().map(|b| bits::hex(b)).collect::<Vec<_>>()});
+                if let Some(mut si) = child.stdin.take() {
+                    let _ = si.write_all(req.to_string().as_bytes());
+                }
+                let Ok(o) = child.wait_with_output() else { continue };
+                let Ok(r) = serde_json::from_slice::<Value>(&o.stdout) else { continue };
+                for (k, b) in frames.iter().enumerate() {
+                    if let Some(got) = r["crcs"][k].as_u64() {
+                        let want = bits::refcrc(&b[..bits::required_len(b[0] >> 3)]);
+                        if got as u32 != want {
+                            out.push(("C03/first_use_race".to_string(), format!("frame {} decoded concurrently with seven others as the first act of a process: checksum {got:06x}, bitwise division gives {want:06x}", bits::hex(b))));
+                            break 'rounds;
+                        }
+                    }
+                }
+            }
+            out
+        }
         Some("serde_crc") => eval_crc_serde(&buf),
         Some("equiv_nostd") => {
             let mut worker = crate::configs::Worker::spawn();
@@ -446,6 +472,71 @@ pub fn run_c03(ctx: &Ctx) -> ! {
             }
         }
         pre.class_n("checksum in the alloc-only build", n as u64);
+    }
+    // ---- the first checksums of a process, computed by several threads at once (anything the
+    // library sets up lazily at first use is set up under contention): fresh child processes
+    {
+        let mut rng = ctx.rng(304, 0);
+        let rounds = ctx.tier.pick(320usize, 6000);
+        let jobs: Vec<Vec<Vec<u8>>> = (0..rounds)
+            .map(|_| {
+                (0..8)
+                    .map(|k| {
+                        // frames of one kind (the same parsing time before the checksum is taken)
+                        let mut b = gen_frame_df(&mut rng, 11);
+                        if k % 2 == 0 {
+                            bits::fix_parity(&mut b, 0);
+                        }
+                        b
+                    })
+                    .collect()
+            })
+            .collect();
+        let results: Vec<Option<(usize, usize, u32, u32)>> = {
+            let jobs = &jobs;
+            let mut out = vec![];
+            std::thread::scope(|sc| {
+                let hs: Vec<_> = (0..WORKERS)
+                    .map(|w| {
+                        sc.spawn(move || {
+                            use std::io::Write;
+                            let mut bad = None;
+                            for (ji, frames) in jobs.iter().enumerate() {
+                                if ji % WORKERS != w || bad.is_some() {
+                                    continue;
+                                }
+                                let Ok(exe) = std::env::current_exe() else { continue };
+                                let Ok(mut child) = std::process::Command::new(exe).arg("helper").stdin(std::process::Stdio::piped()).stdout(std::process::Stdio::piped()).stderr(std::process::Stdio::null()).spawn() else { continue };
+                                let req = json!({"cmd": "firstcrc", "frames": frames.iter().map(|b| bits::hex(b)).collect::<Vec<_>>()});
+                                if let Some(mut si) = child.stdin.take() {
+                                    let _ = si.write_all(req.to_string().as_bytes());
+                                }
+                                let Ok(o) = child.wait_with_output() else { continue };
+                                let Ok(v) = serde_json::from_slice::<Value>(&o.stdout) else { continue };
+                                for (k, b) in frames.iter().enumerate() {
+                                    if let Some(got) = v["crcs"][k].as_u64() {
+                                        let want = bits::refcrc(&b[..bits::required_len(b[0] >> 3)]);
+                                        if got as u32 != want {
+                                            bad = Some((ji, k, want, got as u32));
+                                        }
+                                    }
+                                }
+                            }
+                            bad
+                        })
+                    })
+                    .collect();
+                for h in hs {
+                    out.push(h.join().unwrap_or(None));
+                }
+            });
+            out
+        };
+        pre.evaluations += (rounds * 8) as u64;
+        pre.class_n("first checksums of a fresh process under contention", (rounds * 8) as u64);
+        if let Some((ji, k, want, got)) = results.into_iter().flatten().next() {
+            pre.fail(Failure { sig: "C03/first_use_race".into(), msg: format!("eight threads of a fresh process decode their first frame at the same moment: frame {} is reported with checksum {got:06x}, bitwise division gives {want:06x}", bits::hex(&jobs[ji][k])), replay: json!({"kind":"frame","check":"first_use","frames": jobs[ji].iter().map(|b| bits::hex(b)).collect::<Vec<_>>(), "hex": bits::hex(&jobs[ji][k])}) });
+        }
     }
     let mut st = parallel(|w, st| {
         let mut rng = ctx.rng(3, w as u64);
